@@ -146,6 +146,33 @@ PROPS["C14"] = {
     "trusted_base": ["model MsiModel/CodePage.lean", "Gen/CodePage.lean regenerated from src/internal/codepage.rs", "encoding_rs 0.8.41 per-character tables (enumerated)"],
     "assumptions": ["encoding_rs's encode_from_utf8_without_replacement consumes an unmappable character and reports OutputFull only when the next code does not fit"],
 }
+PROPS["C07"] = {
+    "module": "MsiProofs.Props.C07",
+    "gen": ["category", "column"],
+    "profiles": ["dev"],
+    "theorems": [
+        "MsiProofs.C07.category_spelling_roundtrip", "MsiProofs.C07.category_all_listed",
+        "MsiProofs.C07.intercalate_splitOn", "MsiProofs.C07.splitOn_intercalate", "MsiProofs.C07.splitOn_no_sep",
+        "MsiProofs.C07.version_iff", "MsiProofs.C07.language_iff", "MsiProofs.C07.identifier_iff",
+        "MsiProofs.C07.property_iff", "MsiProofs.C07.case_iff", "MsiProofs.C07.cabinet_hash",
+        "MsiProofs.C07.validate_total", "MsiProofs.C07.unchecked_accept", "MsiProofs.C07.isValidValue_spec",
+    ],
+    "level_text": "Lean theorems, for every string / every (column, value): Category::validate is equivalent to the declarative grammar for "
+                  "Version, Language (split/join inverse lemmas), Identifier, Property, UpperCase/LowerCase; validators total; "
+                  "Column::is_valid_value equals the documented rule (nullability, storable and declared ranges with the most negative value "
+                  "reserved, width in characters, enumeration, category); category spellings round-trip (decide on regenerated tables); "
+                  "tie: bounded-exhaustive strings per category and all boundary integers on the real validators vs model, oracle = independent reference grammars.",
+    "level_note": "Trusted: Lean kernel; hand model of category.rs/column.rs incl. str::parse and uuid::parse_str on 36 bytes (cross-checked by the harness); "
+                  "the insert/update gate (invalid <=> refused) is decided with the query model in C03/C04. GUID, Cabinet and integer-text grammars are "
+                  "tied by correspondence and examples (no iff theorem yet); guid/language values built by the library are checked by enumeration "
+                  "(all 65,536 single codes in thorough).",
+    "technique": "Lean 4 proof (validator = grammar, by induction on strings) + bounded-exhaustive differential testing",
+    "rule": "all strings up to length 4-5 (quick) / 6 (thorough) over an adversarial alphabet per category; boundary numerals; GUID and cabinet shapes by "
+            "structure and mutation; values built from UUIDs and language lists; integers within +-2 of every boundary x 40 column shapes; string columns "
+            "(width x enumeration x category x nullability); seeded random strings for all 26 categories. non-trivial = distinct accepted strings / decided (column,value) pairs",
+    "trusted_base": ["model MsiModel/Category.lean, MsiModel/Column.lean", "Gen/Category.lean, Gen/Column.lean regenerated", "reference grammars harness/src/colfmt.rs"],
+    "assumptions": ["a leading '+' in Integer/DoubleInteger text is not covered by the documented grammar (three-valued oracle)"],
+}
 
 # reasons for properties not claimed (yet); everything else defaults to "not yet built"
 NOT_CLAIMED = {}
